@@ -481,6 +481,51 @@ func missing(m map[string]bool) []string {
 func c18Refs(c *Ctx) {
 	namers := map[*ssa.Function]bool{}
 	n := 0
+	// where does the name spliced behind "#/$defs/" come from? — through calls, helper parameters and returns
+	var trace func(fn *ssa.Function, v ssa.Value, d int)
+	seenV := map[ssa.Value]bool{}
+	trace = func(fn *ssa.Function, v ssa.Value, d int) {
+		if d > 4 || v == nil || seenV[v] {
+			return
+		}
+		seenV[v] = true
+		switch x := v.(type) {
+		case *ssa.Call:
+			if sc := ir.StaticCallee(x); sc != nil && c.P.IsLib(sc) {
+				namers[sc] = true
+				ir.EachInstr(sc, func(b *ssa.BasicBlock, _ int, in ssa.Instruction) {
+					if r, ok := in.(*ssa.Return); ok && b != sc.Recover {
+						for _, rv := range ir.Results(r) {
+							if ir.TypeStr(rv.Type()) == "string" {
+								trace(sc, rv, d+1)
+							}
+						}
+					}
+				})
+			}
+		case *ssa.Phi:
+			for _, e := range x.Edges {
+				trace(fn, e, d)
+			}
+		case *ssa.Parameter:
+			idx := -1
+			for i, p := range fn.Params {
+				if p == x {
+					idx = i
+				}
+			}
+			for _, e := range ir.Callers(c.G, fn) {
+				if e.Site == nil || !c.P.IsLib(e.Caller.Func) {
+					continue
+				}
+				args := e.Site.Common().Args
+				if idx >= 0 && idx < len(args) {
+					trace(e.Caller.Func, args[idx], d+1)
+				}
+			}
+		}
+	}
+	var concatFns []*ssa.Function
 	for _, fn := range c.P.LibFns {
 		ir.EachInstr(fn, func(_ *ssa.BasicBlock, _ int, in ssa.Instruction) {
 			bin, ok := in.(*ssa.BinOp)
@@ -492,24 +537,20 @@ func c18Refs(c *Ctx) {
 				return
 			}
 			n++
-			// origin of the appended name
-			var origin *ssa.Function
-			switch v := bin.Y.(type) {
-			case *ssa.Call:
-				origin = ir.StaticCallee(v)
-			case *ssa.Extract:
-				if lk, ok := v.Tuple.(*ssa.Lookup); ok {
-					_ = lk
-				}
-			}
-			if origin != nil && c.P.IsLib(origin) {
-				namers[origin] = true
-			}
+			concatFns = append(concatFns, fn)
+			trace(fn, bin.Y, 0)
 		})
 	}
-	// the naming function(s): any library function returning string from a reflect.Type that uses Name()/PkgPath()
+	// the naming function(s) by shape: a library function with one reflect.Type parameter and a string result that
+	// asks the type for its Name()
 	for _, fn := range c.P.LibFns {
-		if len(fn.Params) == 1 && isReflectType(fn.Params[0].Type()) && fn.Signature.Results().Len() == 1 && ir.TypeStr(fn.Signature.Results().At(0).Type()) == "string" {
+		nT := 0
+		for _, p := range fn.Params {
+			if isReflectType(p.Type()) {
+				nT++
+			}
+		}
+		if nT == 1 && fn.Signature.Results().Len() == 1 && ir.TypeStr(fn.Signature.Results().At(0).Type()) == "string" {
 			usesName := false
 			ir.EachCall(fn, func(call ssa.CallInstruction) {
 				if call.Common().IsInvoke() && call.Common().Method.Name() == "Name" {
@@ -521,12 +562,22 @@ func c18Refs(c *Ctx) {
 			}
 		}
 	}
+	// ... and what they call synchronously inside the library (a namer split into named()/anonymous())
+	for _, fn := range sortedFuncs(namers) {
+		for f := range c.ReachSync(fn) {
+			if c.P.IsLib(f) && ir.PkgPathOf(f) == ir.PkgPathOf(fn) && f.Signature.Results().Len() == 1 && ir.TypeStr(f.Signature.Results().At(0).Type()) == "string" {
+				namers[f] = true
+			}
+		}
+	}
 	if len(namers) == 0 || n == 0 {
 		c.R.Break("$defs reference construction / type naming function not found (refs=%d namers=%d)", n, len(namers))
 		return
 	}
-	for _, fn := range sortedFuncs(namers) {
-		escapes, wholePath, splits := false, false, false
+	// the two requirements are stated for the naming code as a whole (however it is split into functions)
+	escapes, wholePath, splits := false, false, false
+	var where *ssa.Function
+	for _, fn := range append(sortedFuncs(namers), concatFns...) {
 		ir.EachCall(fn, func(call ssa.CallInstruction) {
 			nm := ir.CallName(call)
 			if nm == "strings.ReplaceAll" || nm == "(*strings.Replacer).Replace" || nm == "net/url.PathEscape" {
@@ -537,13 +588,19 @@ func c18Refs(c *Ctx) {
 			}
 			if call.Common().IsInvoke() && call.Common().Method.Name() == "PkgPath" {
 				wholePath = true
+				if where == nil {
+					where = fn
+				}
 			}
 		})
-		c.R.Check(escapes, "R-ref-escape", "type name in "+fname(fn), c.Pos(fn.Pos()), "name passes a JSON-pointer escaper",
-			sprintf("%s splices reflect type names into \"#/$defs/<name>\" without JSON-pointer escaping: names of generic instantiations contain '/' and '~', the $ref then does not resolve", fname(fn)))
-		c.R.Check(wholePath && !splits, "R-ref-unique", "type name in "+fname(fn), c.Pos(fn.Pos()), "name includes the whole package path",
-			sprintf("%s names a type by the LAST element of its package path plus its name: two types a/x.T and b/x.T share one $defs entry", fname(fn)))
 	}
+	if where == nil {
+		where = sortedFuncs(namers)[0]
+	}
+	c.R.Check(escapes, "R-ref-escape", "type names spliced into $defs references", c.Pos(where.Pos()), "names pass a JSON-pointer escaper",
+		sprintf("reflect type names are spliced into \"#/$defs/<name>\" without JSON-pointer escaping (naming code: %s): names of generic instantiations contain '/' and '~', the $ref then does not resolve", fnames(sortedFuncs(namers))))
+	c.R.Check(wholePath && !splits, "R-ref-unique", "type names spliced into $defs references", c.Pos(where.Pos()), "names include the whole package path",
+		sprintf("a type is named by the LAST element of its package path plus its name (naming code: %s): two types a/x.T and b/x.T share one $defs entry", fnames(sortedFuncs(namers))))
 	// every name a naming function returns is computed from the type it names (its name and path, its address, its
 	// string form): a name taken from anything else — the declaring field, a counter — is shared by different types
 	for _, fn := range sortedFuncs(namers) {
@@ -553,7 +610,7 @@ func c18Refs(c *Ctx) {
 				tp = p
 			}
 		}
-		if tp == nil {
+		if tp == nil || fn.Signature.Results().Len() != 1 || ir.TypeStr(fn.Signature.Results().At(0).Type()) != "string" {
 			continue
 		}
 		nRet := 0
@@ -1013,4 +1070,12 @@ func c18Styles(c *Ctx, gens []*ssa.Function) (roots []*ssa.Function, label map[*
 		}
 	}
 	return roots, label
+}
+
+func fnames(fs []*ssa.Function) string {
+	var out []string
+	for _, f := range fs {
+		out = append(out, fname(f))
+	}
+	return strings.Join(out, ", ")
 }
